@@ -11,7 +11,7 @@ from scipy.sparse import csc_matrix
 
 from vf.core import Discard, Violation, require
 from vf.props.c08 import build_mats, case as c08_case, run_spec as c08_run_spec
-from vf.refmodels import compact_B_from_mats, model_value, ref_cauchy_point, ref_subspace_point
+from vf.refmodels import char_len, compact_B_from_mats, model_value, ref_cauchy_point, ref_subspace_point
 
 ID = "C09"
 LEVEL = "exploration"
@@ -44,13 +44,25 @@ def judge(x, g, lb, ub, mats, xc, xbar, stats=None, tag="syn"):
     free = (xc != lb) & (xc != ub)
     require(np.array_equal(xbar[~free], xc[~free]), "active-variables-fixed", f"[{tag}] an active variable moved: xc={xc[~free].tolist()} xbar={xbar[~free].tolist()}")
     ref, alpha = ref_subspace_point(x, g, lb, ub, B, xc)
-    sc = np.maximum(1.0, np.abs(ref))
+    L0 = char_len(x, g, lb, ub, float(mats.theta), ref - x)
+    # resolution floor: when the whole step is worth less than ~10^4 ulps of x, every quantity below is rounding
+    # noise (runs intercepted with gtol=0 end there); only the exact clause above is judged
+    pg_now = float(np.max(np.abs(np.clip(x - g, lb, ub) - x)))
+    if max(pg_now / max(float(mats.theta), 1e-300), float(np.max(np.abs(ref - x)))) <= 1e4 * EPS * max(float(np.max(np.abs(x))), 1e-300):
+        if stats is not None:
+            stats.bump("at-resolution-floor(only-exact-clauses)")
+        return alpha, free
+    sc = np.maximum(L0, np.abs(ref))
     dev = float(np.max(np.abs(xbar - ref) / sc))
     require(dev <= 1e-7, "truncated-newton-point", f"[{tag}] xbar deviates {dev:.3e} (rel) from the dense reference; alpha*_ref={alpha:.6g}, free={int(free.sum())}/{n}")
-    slack = 4 * EPS * np.maximum(1.0, np.maximum(np.abs(np.where(np.isfinite(lb), lb, 0)), np.abs(np.where(np.isfinite(ub), ub, 0))))
+    slack = 4 * EPS * np.maximum(L0, np.maximum(np.abs(np.where(np.isfinite(lb), lb, 0)), np.abs(np.where(np.isfinite(ub), ub, 0))))
     require(bool(np.all(xbar >= lb - slack) and np.all(xbar <= ub + slack)), "inside-box", f"[{tag}] xbar outside the box")
     m_c, m_b = model_value(x, g, B, xc), model_value(x, g, B, xbar)
     tol = 1e-9 * (abs(m_c) + abs(float(g @ (xbar - x))) + float(np.linalg.norm(B, 2)) * float((xbar - x) @ (xbar - x))) + 1e-300
+    # a point can only be represented to one ulp of its coordinates: rounding the ideal xbar onto the floating-point
+    # grid changes the model value by up to |grad m on the free variables| * ulp (visible only at the resolution floor)
+    rfree = (g + B @ (xbar - x))[free]
+    tol += 4 * EPS * float(max(np.max(np.abs(x)), np.max(np.abs(xbar)))) * float(np.sum(np.abs(rfree))) if rfree.size else 0.0
     require(m_b <= m_c + tol, "model-not-increased", f"[{tag}] m(xbar)={m_b:.6e} > m(xc)={m_c:.6e}")
     pg = float(np.max(np.abs(np.clip(x - g, lb, ub) - x)))
     d = xbar - x
@@ -81,6 +93,14 @@ def run_case(spec, stats=None):
     c = (np.asarray(mats.W).T @ (xc - x)) if mats.use_factor else np.zeros(np.asarray(mats.W).shape[1])
     free = (xc != lb) & (xc != ub)
     idx, Z, A = zmat(n, free)
+    if spec.get("use_get_freev", True):
+        # the partition the solver itself would hand over (lbfgsb.subspacemin.get_freev): "free" means not on a bound, exactly
+        from lbfgsb.subspacemin import get_freev
+
+        idx2, Z, A = get_freev(xc, lb, ub, spec.get("iter", 1), None, -1, None)
+        require(np.array_equal(np.sort(np.asarray(idx2)), idx), "free-set-is-exactly-the-variables-off-their-bounds",
+                f"get_freev returns {np.asarray(idx2).tolist()} but the variables of xc that are not on a bound are {idx.tolist()}")
+        idx = np.asarray(idx2)
     ins = (x.copy(), xc.copy(), g.copy(), c.copy())
     xbar = subspace_minimization(x, xc, idx, Z, A, c, g, lb, ub, mats)
     require(all(np.array_equal(a, b) for a, b in zip(ins, (x, xc, g, c))), "inputs-untouched", "x, xc, g or c modified in place")
